@@ -113,7 +113,14 @@ FamF == UNION {{D(AllFiles, "nonencoded", o[1], o[2], <<Side(f, ext, k, <<"side 
                         o \in OverF(Long(n)), side \in {Side0, <<Side("a.txt", ".abstract", "text", <<"side one">>)>>}} :
                      n \in {246, 247, 252, 255}}
 
-Cases == FamA \cup FamB \cup FamC \cup FamD \cup FamE \cup FamF
+(* Family G: Path kind x Host x Port: absent, "+", this server written out, another server *)
+HostG == {<<>>, <<"Host=+">>, <<"Host=this.example">>, <<"Host=h.example">>}
+PortG == {<<>>, <<"Port=+">>, <<"Port=7071">>, <<"Port=7070">>}
+PathG == {"Path=a.txt", "Path=b/inner.txt", "Path=sub/x/", "Path=./a.txt", "Path=~/b/", "Path=/d/a.txt", "Path=/abs",
+          "Path=URL:http://h.example/p"}
+FamG == {Std(LF(<<"Name=Mid", p>> \o t \o h \o po)) : p \in PathG, h \in HostG, po \in PortG, t \in {<<>>, <<"Type=1">>}}
+
+Cases == FamA \cup FamB \cup FamC \cup FamD \cup FamE \cup FamF \cup FamG
 
 Init == dir \in Cases /\ phase = "case" /\ res = [judge |-> "", scope |-> FALSE, cls |-> "", kinds |-> <<>>]
 Eval == /\ phase = "case"
